@@ -247,9 +247,24 @@ def _interp(ctx):
                     # same order), straight afterwards in the same process - the interpolant must again be exact
                     w_ = numpy.linspace(0, 1, nv) ** float(rng.choice([0.6, 1.7]))
                     w_[1:-1] += rng.uniform(-0.2, 0.2, size=nv - 2) / nv
+                    if rep % 2 == 0 and nv >= 4:
+                        # ... every second time also with the same mean of ln V (two interior volumes moved in opposite directions),
+                        # so that the sets agree in everything a centred or scaled abscissa would keep
+                        w_ = numpy.linspace(0, 1, nv)
+                        sh = float(rng.uniform(0.15, 0.35)) / (nv - 1)
+                        w_[1] += sh
+                        w_[nv - 2] -= sh
+                        if nv >= 6:
+                            w_[2] -= 0.5 * sh
+                            w_[nv - 3] += 0.5 * sh
                     lv = numpy.log(volumes)
                     vol2 = numpy.exp(lv[0] + (lv[-1] - lv[0]) * w_)
                     vol2[0], vol2[-1] = volumes[0], volumes[-1]
+                    if rep % 2 == 0 and nv >= 4:
+                        lv2 = numpy.log(vol2)
+                        lv2[1:-1] += (lv.mean() - lv2.mean()) * nv / (nv - 2)       # same mean of ln V as the first set
+                        vol2 = numpy.exp(lv2)
+                        vol2[0], vol2[-1] = volumes[0], volumes[-1]
                     if numpy.all(numpy.diff(vol2) < 0) and not numpy.allclose(vol2, volumes, rtol=1e-3):
                         table2 = closed_form(par, vol2, dcls)[0]
                         table2[:, 0, :3] = table[:, 0, :3]
